@@ -12,6 +12,7 @@ import (
 	"os"
 	"reflect"
 	"testing"
+	"testing/iotest"
 )
 
 type vxCase struct {
@@ -144,6 +145,24 @@ func TestVerifC17Tcpcl(t *testing.T) {
 				viol("layout", fmt.Sprintf("encoding %x differs from the RFC 9174 layout %x", vxShort(real), vxShort(spec)))
 				return
 			}
+			// the transport may hand the bytes over in pieces of any size (TCP segments, WebSocket frames): whole, byte by byte,
+			// in halves, in random pieces - the decoder has to consume exactly the encoding each time
+			for kind := 1; kind <= 3; kind++ {
+				pr := vxPieces(append(append([]byte{}, real...), vxSentinel...), kind, int64(i))
+				pg, perr := ReadMessage(pr)
+				if perr != nil {
+					viol("decode-error-in-pieces", fmt.Sprintf("reader kind %d: %v", kind, perr))
+					return
+				}
+				if !vxSame(pg, m) {
+					viol("round-trip-in-pieces", fmt.Sprintf("reader kind %d: decoded %v, encoded %v", kind, pg, m))
+					return
+				}
+				if rest, _ := io.ReadAll(pr); !bytes.Equal(rest, vxSentinel) {
+					viol("alignment-in-pieces", fmt.Sprintf("reader kind %d: decoder consumed %d bytes, the encoding has %d", kind, len(real)+len(vxSentinel)-len(rest), len(real)))
+					return
+				}
+			}
 			r := bytes.NewReader(append(append([]byte{}, real...), vxSentinel...))
 			got, err := ReadMessage(r)
 			if err != nil {
@@ -176,7 +195,7 @@ func TestVerifC17Tcpcl(t *testing.T) {
 			stream = append(stream, goodBytes[x]...)
 			want = append(want, goodMsgs[x])
 		}
-		r := bytes.NewReader(stream)
+		r := vxPieces(stream, n%4, int64(n))
 		for j := 0; j < k; j++ {
 			got, err := ReadMessage(r)
 			if err != nil || !vxSame(got, want[j]) {
@@ -191,6 +210,41 @@ func TestVerifC17Tcpcl(t *testing.T) {
 	vhStat("concatenations", nconcat)
 	vhSample(vhRec{"case": json.RawMessage(raws[len(raws)/2])})
 	vhDone()
+}
+
+// vxPieces returns a reader over b that delivers it whole (0), byte by byte (1), in halves of what is asked for (2) or in
+// random pieces (3).
+func vxPieces(b []byte, kind int, seed int64) io.Reader {
+	switch kind {
+	case 1:
+		return iotest.OneByteReader(bytes.NewReader(b))
+	case 2:
+		return iotest.HalfReader(bytes.NewReader(b))
+	case 3:
+		return &vxRandomPieces{b: b, rng: rand.New(rand.NewSource(seed))}
+	}
+	return bytes.NewReader(b)
+}
+
+type vxRandomPieces struct {
+	b   []byte
+	rng *rand.Rand
+}
+
+func (p *vxRandomPieces) Read(out []byte) (int, error) {
+	if len(p.b) == 0 {
+		return 0, io.EOF
+	}
+	n := 1 + p.rng.Intn(7)
+	if n > len(out) {
+		n = len(out)
+	}
+	if n > len(p.b) {
+		n = len(p.b)
+	}
+	copy(out, p.b[:n])
+	p.b = p.b[n:]
+	return n, nil
 }
 
 func vxShort(b []byte) []byte {
